@@ -32,7 +32,8 @@ RULE = ("BFS over all histories of (transformation, target, option) operations "
         "6 seed routines: every operation of the full alphabet on every Loop / "
         "contiguous child range of every Schedule / parallel directive / the "
         "routine, up to bounds.depth_full, plus every history over the core "
-        "alphabet up to bounds.depth_core; a history is extended only by "
+        "alphabet up to bounds.depth_core on bounds.core_seeds; a history is "
+        "extended only by "
         "operations that the real apply() accepted; states are de-duplicated on "
         "sha1(view() text + writer output); every distinct state is judged. "
         "evaluations = distinct states judged; a state is non-trivial when its "
@@ -58,9 +59,12 @@ ASSUMPTIONS = [
 ]
 
 # depth_full: full alphabet; depth_core: core alphabet (sub-alphabet at every step)
+# core_seeds: seeds on which the core alphabet is explored to depth_core
 TIERS = {
-    "quick": {"depth_full": 2, "depth_core": 3, "block": 40},
-    "thorough": {"depth_full": 3, "depth_core": 4, "block": 60},
+    "quick": {"depth_full": 2, "depth_core": 3, "block": 60,
+              "core_seeds": ["nest2", "imperf", "scal", "call"]},
+    "thorough": {"depth_full": 3, "depth_core": 4, "block": 60,
+                 "core_seeds": list(core.SEED_ORDER)},
 }
 
 # Core alphabet: transformation -> allowed variant indices
@@ -104,6 +108,7 @@ def bounds(tier):
         "families": core.FAMILIES,
         "depth_full": cfg["depth_full"],
         "depth_core": cfg["depth_core"],
+        "core_seeds": [s for s in cfg["seeds"] if s in cfg["core_seeds"]],
         "full_alphabet": {k: len(v[2]) for k, v in core.TRANS.items()},
         "core_alphabet": CORE,
         "targets": "every Loop; every contiguous child range of every "
@@ -205,7 +210,8 @@ def prepare(tier):
     ctx = mp.get_context("fork")
     with ctx.Pool(_jobs(), initializer=_worker_init) as pool:
         full = _bfs(pool, cfg["seeds"], cfg["depth_full"], False)
-        cor = _bfs(pool, cfg["seeds"], cfg["depth_core"], True)
+        cor = _bfs(pool, [s for s in cfg["seeds"] if s in cfg["core_seeds"]],
+                   cfg["depth_core"], True)
     merged = dict(full)
     for dig, rec in cor.items():
         if dig not in merged:
